@@ -496,6 +496,8 @@ fn parts(tier: Tier) -> Vec<SPart> {
     let mut ce = gen::cfgs(&[ALL_MODES, 1, 0x20, 0x21], &[d, a], &on, &off);
     ce.extend(gen::cfgs(&[common::NO_ASCII], &[d], &on, &off));
     v.push(SPart { part: Part { name: "W: ES-E length sweep", family: gen::es_e(tier == Tier::Thorough), cfgs: ce }, strong: false });
+    v.push(SPart { part: Part { name: "W: ES-R mixed inputs whose single Base256 field fills a capacity", family: gen::es_r(), cfgs: gen::cfgs(&[ALL_MODES, 0x21, 0x20], &[d, a], &on, &off) }, strong: false });
+    v.push(SPart { part: Part { name: "W: ES-Q Base256 run ending at a symbol capacity + tail", family: gen::es_q(), cfgs: gen::cfgs(&[ALL_MODES, 0x21], &[d, a], &on, &off) }, strong: false });
     v.push(SPart { part: Part { name: "W: named inputs x configurations", family: Family::list(gen::named_inputs()), cfgs: gen::cfgs(&mq, &lq, &both, &both) }, strong: false });
     v
 }
